@@ -39,7 +39,8 @@ def exhaustive(tier):
 def floors(tier):
     return {"evaluations": 200_000 if tier == "quick" else 20_000_000, "distinct": 200_000 if tier == "quick" else 20_000_000,
             "counters": {"contract:a1_inverse.col": 18278, "contract:a1_inverse.cell": 1000, "contract:a1_inverse.parse": 1000,
-                         "cols_checked": NCOLS, "tokenizer_cols": NCOLS, "negatives_rejected": 2000}}
+                         "cols_checked": NCOLS, "tokenizer_cols": NCOLS, "negatives_rejected": 2000,
+                         "calls_in_random_order": 150_000, "tokenizer_ranges_with_unequal_marks": 10_000}}
 
 
 def quick_rows():
@@ -57,6 +58,8 @@ def quick_rows():
 
 def plan(tier, seed):
     specs = [{"part": "cols", "seed": seed, "tier": tier}, {"part": "ranges", "seed": seed, "tier": tier}]
+    for i in range(4 if tier == "quick" else 16):
+        specs.append({"part": "mixed", "seed": seed, "stream": i, "n": 50_000 if tier == "quick" else 500_000, "tier": tier})
     if tier == "thorough":
         step = (MAXROW + 1 + ROW_SHARDS - 1) // ROW_SHARDS
         for i in range(ROW_SHARDS):
@@ -234,12 +237,74 @@ def check_ranges(rec, seed, tier):
     rec.sample({"range": [list(pairs[-1][0]), list(pairs[-1][1])], "text": xrefs.xl_range(*pairs[-1][0], *pairs[-1][1])})
 
 
+def check_mixed(rec, seed, stream, n, start=0, stop=None):
+    """The conversions called in random order on random arguments (an answer must not depend on what was asked before), and the
+    tokenizer's range parser on two-corner ranges whose four '$' marks are independent of each other."""
+    from numbers_parser import Document, xrefs
+    from numbers_parser.tokenizer import parse_numbers_range
+    from vf.ref import a1
+    model = Document()._model
+    rng = random.Random(f"C10-mixed-{seed}-{stream}")
+    pool = [0, 1, 2, 24, 25, 26, 27, 28, 51, 52, 53, 54, 77, 78, 700, 701, 702, 703, 704, 727, 728, 729, 1377, 1378, 1379, 18276, 18277]
+    done = 0
+    for i in range(n):
+        k = rng.random()
+        col = rng.choice(pool) if rng.random() < .4 else rng.randrange(NCOLS)
+        row = rng.choice([0, 1, 8, 9, 98, 99, 999_999]) if rng.random() < .4 else rng.randrange(MAXROW + 1)
+        col2 = rng.choice(pool) if rng.random() < .4 else rng.randrange(NCOLS)
+        row2 = rng.randrange(MAXROW + 1)
+        fl = [rng.random() < .5 for _ in range(4)]
+        if stop is not None and not (start <= i < stop):
+            if stop <= i:
+                break
+        c = {"part": "mixed", "seed": seed, "stream": stream, "i": i}
+        done += 1
+        try:
+            if k < .25:
+                name = a1.col_name(col)
+                got = xrefs.xl_col_to_offset(("$" if fl[0] else "") + name)
+                if got != col:
+                    _vio(rec, "col_offset", {"kind": "not-inverse", "order": "random"}, {"text": name, "got": got, "want": col}, c)
+            elif k < .45:
+                got = xrefs.xl_col_to_name(col, fl[0])
+                if got != ("$" if fl[0] else "") + a1.col_name(col):
+                    _vio(rec, "col_name", {"kind": "mismatch", "order": "random"}, {"col": col, "got": got}, c)
+            elif k < .65:
+                text = a1.cell_name(row, col, fl[0], fl[1])
+                got = xrefs.xl_cell_to_rowcol(text)
+                if tuple(got) != (row, col):
+                    _vio(rec, "cell_parse", {"kind": "not-inverse", "order": "random"}, {"text": text, "got": list(got)}, c)
+            elif k < .8:
+                got = xrefs.xl_rowcol_to_cell(row, col, fl[0], fl[1])
+                if got != a1.cell_name(row, col, fl[0], fl[1]):
+                    _vio(rec, "cell_name", {"kind": "mismatch", "order": "random"}, {"row": row, "col": col, "got": got}, c)
+            else:
+                # row_abs1, col_abs1, row_abs2, col_abs2 drawn independently
+                text = a1.cell_name(row, col, fl[0], fl[1]) + ":" + a1.cell_name(row2, col2, fl[2], fl[3])
+                r = parse_numbers_range(model, text)
+                got = [r.row_start, r.col_start, r.row_end, r.col_end, bool(r.row_start_is_abs), bool(r.col_start_is_abs), bool(r.row_end_is_abs), bool(r.col_end_is_abs)]
+                want = [row, col, row2, col2, fl[0], fl[1], fl[2], fl[3]]
+                rec.count("tokenizer_two_corner_ranges")
+                if fl[1] != fl[3] or fl[0] != fl[2]:
+                    rec.count("tokenizer_ranges_with_unequal_marks")
+                if got != want:
+                    _vio(rec, "tokenizer_range", {"kind": "marks" if got[:4] == want[:4] else "coordinates"}, {"text": text, "got": got, "want": want}, c)
+        except Exception as e:  # noqa: BLE001
+            _vio(rec, "mixed_call_raised", {"exc": type(e).__name__, "call": int(k * 5)}, {"row": row, "col": col, "msg": str(e)[:100]}, c)
+    rec.count("calls_in_random_order", done)
+    rec.bulk(done, done)
+
+
 def run_shard(spec, rec):
     if "cases" in spec:
         for c in spec["cases"]:
             replay(c, rec)
         return
     part = spec["part"]
+    if part == "mixed":
+        check_mixed(rec, spec["seed"], spec["stream"], spec["n"])
+        rec.sample({"mixed_calls": spec["n"], "stream": spec["stream"]})
+        return
     if part == "cols":
         check_cols(rec)
         check_negatives(rec)
@@ -253,6 +318,10 @@ def run_shard(spec, rec):
 
 def replay(case, rec):
     part = case.get("part")
+    if part == "mixed":
+        # the history up to and including the call matters: replay the whole prefix
+        check_mixed(rec, case["seed"], case["stream"], case["i"] + 1)
+        return
     if part == "col":
         check_cols(rec, [case["col"]], case=case)
     elif part == "neg":
